@@ -70,3 +70,17 @@ func FSEnterTemp(tag string) {
 func FSMkdir(p string) { os.MkdirAll(p, 0755) }
 func FSTouch(p string) { os.WriteFile(p, []byte("x"), 0644) }
 func FSSymlink(target, p string) { os.Symlink(target, p) }
+
+// FakeCommand (native replays only; the engine returns "" and does nothing): puts an executable
+// called name first on PATH that copies the file named by its last argument to the returned path
+// and exits 0. Lets the real re-launch code run to the point where it would start the command.
+func FakeCommand(name string) string {
+	dir := scratchPath("bin_" + name)
+	os.RemoveAll(dir)
+	os.MkdirAll(dir, 0755)
+	out := dir + "/captured"
+	script := "#!/bin/sh\nfor a; do last=$a; done\ncp \"$last\" '" + out + "'\nexit 0\n"
+	os.WriteFile(dir+"/"+name, []byte(script), 0755)
+	os.Setenv("PATH", dir+":"+os.Getenv("PATH"))
+	return out
+}
